@@ -64,9 +64,9 @@ pub struct RefState {
     pub grad_buffers: Vec<usize>,
 }
 
+/// exact mode: integers only (see `ir::is_dyadic`)
 pub fn is_exact_value(v: f64) -> bool {
-    let s = v * 16.0;
-    s == s.trunc() && s.abs() < 1e9
+    v == v.trunc() && v.abs() < 1e15
 }
 
 impl RefState {
